@@ -103,6 +103,8 @@ def gen_case(rng, gpg=None, stratum=None):
             usigned["extra"] = [None, {"x": 1.5}]
         elif shape == "far_future":
             usigned["timestamp"], usigned["expiration"] = "9998-01-01T00:00:00Z", "9999-12-31T23:59:59Z"
+        if rng.random() < 0.15:
+            usigned["metadata_spec_version"] = rng.choice(["1.0.0", "2.0.0-\u00e9", "1.0.0\ud800", "", "\U0001f600.0.0"])
     else:
         usigned = jsonvals.rand_payload(rng)
         if rng.random() < 0.3:
